@@ -80,6 +80,17 @@ func c37JoinerRefs(r *core.Run) {
 					return isB && b.Name() == "len" && (c.Call.Args[0] == sl.X || core.SameExpr(c.Call.Args[0], sl.X))
 				}
 				within, _ := core.AtomEdges(fn, cmpAtom(func(x ssa.Value) bool { return core.SameExpr(x, sl.High) }, isLen, "<="))
+				if within == nil {
+					within = core.EdgeSet{}
+				}
+				// equally good: the payload was tested to be a whole number of references
+				aligned, _ := core.AtomEdges(fn, cmpAtom(func(x ssa.Value) bool {
+					rem, isRem := x.(*ssa.BinOp)
+					return isRem && rem.Op.String() == "%" && isLen(rem.X) && isRefLen(rem.Y)
+				}, func(y ssa.Value) bool { k, isC := core.ConstInt(y); return isC && k == 0 }, "=="))
+				for e := range aligned {
+					within[e] = true
+				}
 				r.Check(rule, lsKey(rule, fn, "reference cut out of the payload within its length"), sl.Pos(), len(within) > 0 && core.OnlyBehind(fn, sl, within),
 					"a reference is cut out of a fetched intermediate chunk only behind cursor+refLength <= len(payload)",
 					"data[cursor : cursor+refLength] is guarded by cursor < len(data) only: an intermediate chunk whose payload is not a multiple of the reference length (a peer chooses it) makes the last slice run past the payload — slice bounds out of range on the traversal goroutine")
